@@ -80,6 +80,22 @@ theorem lde_complete (A : List Vec) (p q fuel : ℕ) (hA : WF A p q) (basis : Li
     (h : homogeneousLde A p q fuel = .ok basis) (m : Vec) (hm : Minimal A q m) : m ∈ basis :=
   ((lde_exact A p q fuel hA basis h).2 m).mpr hm
 
+/-- **covering** (the "basis" half of *Hilbert basis*): every non-zero non-negative solution of `A x = 0`
+dominates, componentwise, one of the returned vectors.  With `lde_exact` this says the result is exactly the
+set of minimal elements *and* that this set is coinitial in the solution set — dropping any returned vector,
+or returning a non-minimal one instead, breaks one of the two. -/
+theorem lde_covers (A : List Vec) (p q fuel : ℕ) (hA : WF A p q) (basis : List Vec)
+    (h : homogeneousLde A p q fuel = .ok basis) (v : Vec) (hv : IsSol A q v) :
+    ∃ b ∈ basis, ∀ i, cmp b i ≤ cmp v i := by
+  obtain ⟨m, hm, hle⟩ := exists_minimal_le A q v.sum.toNat v hv (Nat.le_refl _)
+  exact ⟨m, lde_complete A p q fuel hA basis h m hm, hle⟩
+
+/-- the zero matrix row count / column guard: outside `p > 0 ∧ q > 1` the model stops at the assertion,
+never with a result — the C++ `SYMENGINE_ASSERT(p > 0 and q > 1)` -/
+theorem lde_guard (A : List Vec) (p q fuel : ℕ) (hpq : p = 0 ∨ q ≤ 1) :
+    homogeneousLde A p q fuel = .error .assert := by
+  unfold homogeneousLde; simp [hpq]
+
 /-- the full property including termination — stated, not proved (the termination argument of
 Contejean–Devie is a compactness argument over the reals) -/
 def C46_full : Prop :=
